@@ -44,6 +44,7 @@ class C12(Prop):
         "PrefVerif.C12DP.axis_ne_nil",
         "PrefVerif.C12Opt.deletion_optimal",
         "PrefVerif.C12Opt.deletion_sp_complete",
+        "PrefVerif.C15y.deletion_value_eq_min",
         "PrefVerif.ILPP.votdel_axis_feasible",
         "PrefVerif.ILPP.votdel_feasible_axis",
         "PrefVerif.ILPP.altdel_feasible_axis",
